@@ -23,6 +23,7 @@ from harness import core as C  # noqa: E402
 from harness import gen, runner  # noqa: E402
 
 COQ = os.path.join(ROOT, "coq")
+LEVELS = json.load(open(os.path.join(ROOT, "levels.json")))
 ALLOWED_AXIOMS = set()          # target: every property theorem closed under the global context
 TRUSTED_BASE = [
     "Coq 8.16.1 kernel and vm_compute (no native_compute); coqchk re-check in the thorough tier",
@@ -315,7 +316,7 @@ def main():
     samples = [{"id": c["id"], "flav": c["flav"], "program": [C.cstmt(s) for s in c["prog"]]} for c in cases[:: max(1, len(cases) // 3)][:3]]
     ev = {
         "property_id": pid, "tier": tier, "seed": seed,
-        "level": "proof" if pr["obligations"] and pr["discharged"] == pr["obligations"] else "other",
+        "level": "proof" if (LEVELS.get(pid) == "proof" and pr["obligations"] and pr["discharged"] == pr["obligations"]) else "other",
         "coverage": {
             "obligations": pr["obligations"], "discharged": pr["discharged"],
             "checker_cmd": f"make -C coq (coq_makefile, full .vo build) && coqc -Q coq SC coq/Properties/{pid}.v  # Print Assumptions parsed",
